@@ -102,6 +102,20 @@ def random_case(rng, n, force):
     return Case(lines, desc={"random": True, "repos": repos, "plat": fplat, "stored": [s[0] for s in stored][:6], "queries": nq})
 
 
+def sweep_case(n, cat, ex, chunk, plat):
+    """one path per data file dat0..dat7, all at the same offset, each with its own content; every query kind on each"""
+    inst = Installation([0, ex], plat)
+    lines = []
+    for dat in range(8):
+        path = "%s/%ssweep/d%d.bin" % (sqpack.CATEGORY_NAMES[cat], ("ex%d/" % ex) if ex else "", dat)
+        off = inst.place(ex, cat, chunk, dat, small_std(100 + dat), at=2048)
+        inst.add_entry(ex, cat, chunk, 1 + (dat + n) % 2, list(path.encode()), dat, off)
+        for q in ("exists", "find_offset", "extract"):
+            lines.append({"op": "archive.query", "h": 1, "case": n, "q": q, "path": list(path.encode())})
+    return Case([inst.open_line(1, n)] + lines + [{"op": "archive.close", "h": 1, "case": n}],
+                desc={"dat-sweep": [cat, ex, chunk, plat]})
+
+
 def check(run):
     rng = random.Random(run.seed)
     # -coverage 1 costs 25x on this model: action coverage is read back in the thorough tier only
@@ -117,11 +131,14 @@ def check(run):
     forces = [(CATS[i % 15], i % 10, (i * 3) % 10, i % 5) for i in range(nr)]
     for i in range(nr):
         cases.append(random_case(rng, base + i, forces[i]))
+    base = len(cases)
+    for i, cat in enumerate(CATS):
+        cases.append(sweep_case(base + i, cat, i % 10, (7 * i) % 10, i % 5))
     run.rule = ("one query history per transition (layout, memo before, call, memo after) of the bounded handle model (TLC VIEW; "
                 "913 layouts of <= 2 stored paths over chunk x index/index2/both x dat, 8 probe paths incl. case twins, fallback, "
                 "unknown category; histories <= 3 calls; quick replays a seeded 6%), plus stratified random installations (all 15 "
                 "categories, ex0..ex9, chunks 0..9, 5 platforms, 1..64 entries per index over dat0..7, synonym bits, noise entries) "
-                "with 30 interleaved queries per handle; distinct by script, non-trivial when the layout stores at least one path")
+                "with 30 interleaved queries per handle, a dat0..dat7 sweep per category; distinct by script, non-trivial when the layout stores at least one path")
     run.conform(cases, MODULE, CFG, shards=14, xmx="4g")
     run.assumptions = ["index layout recalled from the public SqPack description; the index-type value is written where the "
                        "library reads it (byte 296, value 0/1) and where the recalled layout has it (u32 at 300, value 0/2): "
